@@ -244,11 +244,11 @@ def bodyRunActsC (goC : GoC) (id : Nat) (acts : List ClientAct) (s : St) : (St Ã
   | .sendSlot spec slot :: rest =>
     let qid := (genQid 70000 s).1
     let p := goC (.sendNolock none false false spec (.client id) []) s
-    let s := if p.1.2 == .ok then p.1.1.modClient id fun c =>
+    let s := if p.1.2 == .ok && p.1.1.byQid.any (Â·.1 == qid) then p.1.1.modClient id fun c =>
         if slot == 0 then { c with qidA := qid } else { c with qidAAAA := qid } else p.1.1
     let q := goC (.runActs id rest) s
     ((q.1.1, if rest.isEmpty then p.1.2 else q.1.2),
-      .act id (.sendSlot spec slot) :: p.2 ++ (if p.1.2 == .ok then [.slot id slot qid] else []) ++ q.2)
+      .act id (.sendSlot spec slot) :: p.2 ++ (if p.1.2 == .ok && p.1.1.byQid.any (Â·.1 == qid) then [.slot id slot qid] else []) ++ q.2)
   | .noRetry qid :: rest =>
     let s := match s.byQid.find? (Â·.1 == qid) with
       | some (_, key) => s.modQuery key fun q => { q with noRetries := true }
